@@ -376,7 +376,10 @@ def build_catalog(ck, wd):
          ("labeled-xyz-shares-names", "S " + wf("l3.txt", "b 0.1 0.2 0.3\nMEG001 0.4 0.5 0.6\nzz 1.5 2.5 3.5\n")),
          ("ragged", "S " + wf("rag.txt", "a 0.1 0.2 0.3\nb 0.4 0.5\n")), ("missing", "S %s/nothere.txt" % sd),
          ("four-columns", "S " + wf("l4.txt", "p 0.1 0.2 0.3 0.05\nq 0.4 0.5 0.6 0.05\n")),
-         ("Head1-EIT.patches", "S %s/Head1-EIT.patches" % H1), ("Head1-ecog", "S %s/Head1-ecog.electrodes" % H1)]
+         ("Head1-EIT.patches", "S %s/Head1-EIT.patches" % H1), ("Head1-ecog", "S %s/Head1-ecog.electrodes" % H1),
+         # degenerate descriptions: the outcome CLASS (exception or state) must also be that of a fresh object
+         ("empty-file", "S " + wf("empty.txt", "")), ("comments-only", "S " + wf("comments.txt", "# no sensor here\n# at all\n")),
+         ("blank-lines-only", "S " + wf("blank.txt", "\n\n   \n")), ("comment-then-one-sensor", "S " + wf("c1.txt", "# one\nz1 0.1 0.2 0.3\n"))]
     # meshes
     md = os.path.join(gd, "mesh"); os.makedirs(md, exist_ok=True)
     v0, t0 = models.icosphere(0); v1, t1 = models.icosphere(1)
@@ -414,18 +417,25 @@ def build_catalog(ck, wd):
          ("sym-3.txt", "L " + wl("s3.txt", b"1 2 3\n4 5\n6\n")), ("vector-4.txt", "L " + wl("v4.txt", b"1\n2\n3\n4\n")),
          ("vector-3.bin", "L " + wl("v3.bin", struct.pack("<I", 3) + struct.pack("<ddd", 1.0, 2.0, 3.0))),
          ("missing", "L %s/nothere.txt" % ld), ("garbage.txt", "L " + wl("g.txt", b"hello world, this is not a matrix file at all\n"))]
+    # several head models in the same coordinate frame (machine 8) and the source mesh of SurfSourceMat
+    nst = models.nested([0.5, 0.8, 1.0], [0.33, 0.0125, 0.33], level=1); gn, cn = models.write_model(nst, os.path.join(gd, "nst"), stem="nst")
+    spl = models.split_hemispheres(0.9, [1.0], (0.4, 0.2), [0.33], level=1); gs, cs = models.write_model(spl, os.path.join(gd, "spl"), stem="spl")
+    X = [("Head1", "X %s/Head1.geom %s/Head1.cond" % (H1, H1)), ("Head2", "X %s/Head2/Head2.geom %s/Head2/Head2.cond" % (D, D)),
+         ("nested3", "X %s %s" % (gn, cn)), ("immersed4", "X %s %s" % (g, c)), ("split", "X %s %s" % (gs, cs))]
+    Y = [("ico0.tri", "Y %s/ico0.tri" % md)]
     with open(os.path.join(wd, "catalog.txt"), "w") as fh:
-        for _, l in G + S + M + L: fh.write(l + "\n")
-    return dict(G=G, S=S, M=M, L=L)
+        for _, l in G + S + M + L + X + Y: fh.write(l + "\n")
+    return dict(G=G, S=S, M=M, L=L, X=X)
 
 def object_worlds(ck, hb, wd, cat):
     """one fresh process per catalog entry: what the operation does to a fresh object"""
     rn = Renum()
-    jobs = [("G", i) for i in range(len(cat["G"]))] + [("S0", i) for i in range(len(cat["S"]))] + [("S1", i) for i in range(len(cat["S"]))] + [("M", i) for i in range(len(cat["M"]))] + [("L%d" % k, i) for k in range(4) for i in range(len(cat["L"]))] + [("MF", i) for i in range(len(cat["M"]))] + [("CF", k) for k in range(N_COMPUTE)]
+    jobs = [("G", i) for i in range(len(cat["G"]))] + [("S0", i) for i in range(len(cat["S"]))] + [("S1", i) for i in range(len(cat["S"]))] + [("M", i) for i in range(len(cat["M"]))] + [("L%d" % k, i) for k in range(4) for i in range(len(cat["L"]))] + [("MF", i) for i in range(len(cat["M"]))] + [("CF", k) for k in range(N_COMPUTE)] + [("XF", g * 4 + t) for g in range(len(cat["X"])) for t in range(4)]
     def run(j):
         t, i = j; d = os.path.join(wd, "f%s_%d" % (t, i)); os.makedirs(d, exist_ok=True)
         shutil.copy(os.path.join(wd, "catalog.txt"), d)
-        line = {"G": "c17 20 %d", "S0": "c17 30 0 %d", "S1": "c17 30 1 %d", "M": "c17 40 %d", "L0": "c17 50 0 %d", "L1": "c17 50 1 %d", "L2": "c17 50 2 %d", "L3": "c17 50 3 %d", "MF": "c17 41 %d", "CF": "c17 6 1 %d"}[t] % i
+        line = {"G": "c17 20 %d", "S0": "c17 30 0 %d", "S1": "c17 30 1 %d", "M": "c17 40 %d", "L0": "c17 50 0 %d", "L1": "c17 50 1 %d", "L2": "c17 50 2 %d", "L3": "c17 50 3 %d", "MF": "c17 41 %d", "CF": "c17 6 1 %d", "XF": "c17 81 %d"}[t] % i
+        if t == "XF": line = "c17 81 %d %d" % (i // 4, i % 4)
         return ints(hrun(hb, [line], d, timeout=600)[0])
     with ThreadPoolExecutor(8) as ex:
         res = dict(zip(jobs, ex.map(run, jobs)))
@@ -471,13 +481,14 @@ def object_worlds(ck, hb, wd, cat):
             else: Lw[k].append([0, ob[1], ob[2], ob[3]] + ob[4:])
     MF = [res[("MF", i)] for i in range(len(cat["M"]))]
     CF = [res[("CF", k)] for k in range(N_COMPUTE)]
-    return Gw, Sw, Mw, Lw, rn, res, MF, CF
+    XF = [res[("XF", k)] for k in range(4 * len(cat["X"]))]
+    return Gw, Sw, Mw, Lw, rn, res, MF, CF, XF
 
 def check_objects(ck, hb, quick, replay):
     wd = os.path.join(ck.workdir, "obj"); os.makedirs(wd, exist_ok=True)
     cat = build_catalog(ck, wd)
-    Gw, Sw, Mw, Lw, rn, raw, MF, CF = object_worlds(ck, hb, wd, cat)
-    stats = dict(compute=dict(seqs=0, ops=0, op={}), linop=dict(seqs=0, ops=0, status={}), geometry=dict(seqs=0, ops=0, op={}, status={}), sensors=dict(seqs=0, ops=0, status={}), mesh=dict(seqs=0, ops=0, op={}, status={}, explained_by_known_finding=0))
+    Gw, Sw, Mw, Lw, rn, raw, MF, CF, XF = object_worlds(ck, hb, wd, cat)
+    stats = dict(multi=dict(seqs=0, ops=0, op={}), compute=dict(seqs=0, ops=0, op={}), linop=dict(seqs=0, ops=0, status={}), geometry=dict(seqs=0, ops=0, op={}, status={}), sensors=dict(seqs=0, ops=0, status={}), mesh=dict(seqs=0, ops=0, op={}, status={}, explained_by_known_finding=0))
     bad = [l for (l, _), w in zip(cat["G"], Gw) if w is None] + [l for (l, _), w in zip(cat["M"], Mw) if w is None] + [l for ge in (0, 1) for (l, _), w in zip(cat["S"], Sw[ge]) if w is None] + [l for k in range(4) for (l, _), w in zip(cat["L"], Lw[k]) if w is None]
     for l in bad:
         ck.violation("objects: crash while describing %s" % l, "a single load of %s in a fresh process crashed the harness" % l, dict(kind="crash", entry=l), found_input=False)
@@ -492,7 +503,7 @@ def check_objects(ck, hb, quick, replay):
              [(0, 0), (1, 0), (5, 14), (1, 0), (5, 0), (1, 0)], [(0, 2), (5, 15), (1, 0)], [(0, 15), (5, 2), (1, 0)],      # conductivities changed in place
              [(0, 9), (4, 0), (0, 0), (1, 0)], [(4, 0), (0, 2)], [(0, 0), (4, 0), (0, 14), (1, 0)],                          # programmatic construction, then load
              [(0, 16), (0, 0)], [(0, 7), (0, 0), (0, 16), (0, 7), (0, 0), (1, 0)]]                                          # failed .geom loads, then a valid one
-    sseqs = [(0, [0, 0]), (0, [0, 2]), (1, [9, 9])]
+    sseqs = [(0, [0, 0]), (0, [0, 2]), (1, [9, 9]), (0, [0, 11]), (0, [4, 12, 13]), (1, [9, 12]), (0, [11, 1, 12, 14])]
     mseqs = [[(0, 0), (0, 1)], [(0, 0), (1, 0), (0, 0)], [(0, 0), (1, 0), (1, 0)],
              [(0, 13), (0, 9)], [(0, 9), (0, 9)], [(0, 10), (0, 9), (0, 11), (0, 12)]]       # tetra then seam; seam twice; degenerate inputs in a row
     nL = len(cat["L"])
@@ -598,6 +609,44 @@ def check_objects(ck, hb, quick, replay):
                 ck.violation("compute: %s after [%s] %s" % (COMPUTE[h[q]], "; ".join(COMPUTE[k] for k in h[:q]) if q <= 3 else "%d computations" % q, "modifies a const operand" if changed and (q == 0 or not hv[2 * q - 1]) else "gives another result than on fresh inputs"),
                              "computation %d (%s) of the history [%s] on shared Head1 objects: result fingerprint %d, on freshly built inputs %d; const operands whose bits changed so far: %s"
                              % (q, COMPUTE[h[q]], names, hv[2 * q], mv[2 * q], changed or "none"), rp)
+    # ---- point-locating assemblies interleaved on several geometries alive in one process
+    XOPS = ["DipSourceMat", "DipSource2InternalPotMat", "Surf2VolMat", "SurfSourceMat"]; nX = len(cat["X"])
+    if any(x is None or len(x) != 4 for x in XF):
+        ck.violation("multi: crash while measuring fresh results", "an assembly on the only geometry of a fresh process crashed the harness: %s" % [k for k, x in enumerate(XF) if x is None or len(x) != 4], dict(kind="crash"), found_input=False)
+    else:
+        xinit = [XF[4 * g][1] for g in range(nX)] + [XF[0][2], XF[0][3]]
+        xseqs = [[(0, 0), (1, 0)], [(1, 0), (0, 0)], [(0, 2), (1, 1)], [(2, 0), (4, 0), (3, 0), (0, 3), (1, 3)], [(4, 1), (3, 2), (2, 3), (0, 0)]]
+        if replay: xseqs = [[tuple(o) for o in r["ops"]] for r in replay if r["machine"] == "multi"]
+        else:
+            for _ in range(14 if quick else 150): xseqs.append([(rng.randrange(nX), rng.choice([0, 0, 1, 2, 3])) for _ in range(rng.randint(2, 8 if quick else 20))])
+        def xcase(h):
+            w = [8, len(xinit)] + xinit + [4 * nX]
+            for g in range(nX):
+                for t in range(4): w += [2, g, nX if t in (0, 1) else nX + 1, 0, XF[4 * g + t][0]] if t != 1 else [3, g, nX, nX + 1, 0, XF[4 * g + t][0]]
+            return "c17 " + " ".join(map(str, w + [len(h)] + [4 * g + t for g, t in h]))
+        xmo = core.run_model([xcase(h) for h in xseqs])
+        def xone(j):
+            d = os.path.join(wd, "x%d" % j); os.makedirs(d, exist_ok=True); shutil.copy(os.path.join(wd, "catalog.txt"), d)
+            r = hrun_p(hb, "c17 " + " ".join(map(str, [8, nX, len(xseqs[j])] + [v for o in xseqs[j] for v in o])), d, "multi", dict(machine="multi", ops=[list(o) for o in xseqs[j]]), timeout=900); shutil.rmtree(d, ignore_errors=True); return r
+        with ThreadPoolExecutor(8) as ex:
+            xho = list(ex.map(xone, range(len(xseqs))))
+        for h, m, o in zip(xseqs, xmo, xho):
+            stats["multi"]["seqs"] += 1; stats["multi"]["ops"] += len(h)
+            for g, t in h: stats["multi"]["op"][XOPS[t]] = stats["multi"]["op"].get(XOPS[t], 0) + 1
+            names = "; ".join("%s(%s)" % (XOPS[t], cat["X"][g][0]) for g, t in h)
+            rp = dict(kind="object-history", machine="multi", cases=[dict(machine="multi", ops=[list(x) for x in h])], history=names, replay_cmd="./check C17 --replay <this file>")
+            oi = ints(o)
+            if oi is None:
+                ck.violation("multi: crash in history " + names, "the harness crashed (%s) running [%s] with all geometries alive in one process; each assembly runs in a fresh process" % (o, names), rp); continue
+            hv = oi[1 + oi[0]:]; mv = [int(t) for t in m.split()]
+            if oi[1:1 + oi[0]] != xinit:
+                ck.violation("multi: geometries loaded together differ from the same geometries loaded alone", "operand fingerprints %s vs %s" % (oi[1:1 + oi[0]], xinit), rp); continue
+            bad = [q for q in range(len(h)) if hv[2 * q:2 * q + 2] != mv[2 * q:2 * q + 2]]
+            if bad:
+                q = bad[0]
+                ck.violation("multi: %s(%s) after [%s] differs from the same assembly in a fresh process" % (XOPS[h[q][1]], cat["X"][h[q][0]][0], "; ".join("%s(%s)" % (XOPS[t], cat["X"][g][0]) for g, t in h[:q]) if q <= 3 else "%d assemblies" % q),
+                             "assembly %d of the history [%s] (all geometries alive in one process): (result fingerprint or -status, mask of changed operands) = %s; alone in a fresh process: %s"
+                             % (q, names, hv[2 * q:2 * q + 2], mv[2 * q:2 * q + 2]), rp)
     GOBS = ["status", "#vertices", "#meshes", "#domains", "nb_parameters", "#communicating_mesh_pairs", "#isolated_parts", "#invalid_vertices", "nb_current_barrier_triangles", "nested"]
     # ---- geometry
     for h, m, o in zip(gseqs, mg, hg):
@@ -692,6 +741,7 @@ def check_objects(ck, hb, quick, replay):
                 stats["mesh"]["explained_by_known_finding"] += 1
     def dsc(m, c):
         if m == "compute": return "; ".join(COMPUTE[k] for k in c["ops"])
+        if m == "multi": return "; ".join("%s(%s)" % (["DipSourceMat", "DipSource2InternalPotMat", "Surf2VolMat", "SurfSourceMat"][t], cat["X"][g][0]) for g, t in c["ops"])
         if m == "geometry": return "; ".join(("load " + cat["G"][i][0]) if op == 0 else (["", "HeadMat", "DipSourceMat", "finalize()", "programmatic construction"][op] if op < 5 else "set_conductivity(" + cat["G"][i][0] + ")+finalize()") for op, i in c["ops"])
         if m == "sensors": return "; ".join("load " + cat["S"][i][0] for i in c["ops"])
         if m == "mesh": return "; ".join(("load " + cat["M"][i][0]) if op == 0 else "SurfSourceMat(Head1,mesh)" for op, i in c["ops"])
@@ -717,17 +767,17 @@ def main(replay=None):
     st_io, seqs, st_obj = {}, [], {}
     if not replay or rmach == "io":
         st_io, seqs = check_io(ck, hb, quick, rcases)
-    if not replay or rmach in ("geometry", "sensors", "mesh", "linop", "compute"):
+    if not replay or rmach in ("geometry", "sensors", "mesh", "linop", "compute", "multi"):
         st_obj = check_objects(ck, hb, quick, rcases)
     ck.drop_proof_violation_if(any(v[3] for v in ck.violations))
-    nobj = sum(st_obj.get(k, {}).get("ops", 0) for k in ("geometry", "sensors", "mesh", "linop", "compute"))
+    nobj = sum(st_obj.get(k, {}).get("ops", 0) for k in ("geometry", "sensors", "mesh", "linop", "compute", "multi"))
     ck.cov.update(evaluations=st_io.get("ops", 0) + nobj,
-                  distinct_nontrivial=len({json.dumps(s) for s in seqs if len(s[1]) >= 2}) + sum(st_obj.get(k, {}).get("seqs", 0) for k in ("geometry", "sensors", "mesh", "linop", "compute")),
+                  distinct_nontrivial=len({json.dumps(s) for s in seqs if len(s[1]) >= 2}) + sum(st_obj.get(k, {}).get("seqs", 0) for k in ("geometry", "sensors", "mesh", "linop", "compute", "multi")),
                   rule="IO: operation histories (length 1..%d) over 12 file names (suffix classes mat/txt/tex/bin/unknown/none, two in a missing directory) and %d measured contents; objects: load/assemble histories (length 2..%d) on one Geometry / Sensors / Mesh object over the catalog of data and generated files; non-trivial = at least two operations; distinct = distinct histories" % (8 if quick else 20, st_io.get("contents", 0), 8 if quick else 20),
                   samples=[json.dumps(dict(fs=fs, ops=ops)) for fs, ops in seqs[3:6]],
-                  op_distribution=dict(io=st_io.get("op", {}), geometry=st_obj.get("geometry", {}).get("op", {}), mesh=st_obj.get("mesh", {}).get("op", {}), sensors=dict(load=st_obj.get("sensors", {}).get("ops", 0)), linop=dict(load=st_obj.get("linop", {}).get("ops", 0)), compute=st_obj.get("compute", {}).get("op", {})),
+                  op_distribution=dict(io=st_io.get("op", {}), geometry=st_obj.get("geometry", {}).get("op", {}), mesh=st_obj.get("mesh", {}).get("op", {}), sensors=dict(load=st_obj.get("sensors", {}).get("ops", 0)), linop=dict(load=st_obj.get("linop", {}).get("ops", 0)), compute=st_obj.get("compute", {}).get("op", {}), multi=st_obj.get("multi", {}).get("op", {})),
                   outcome_distribution=dict(io=st_io.get("fail", {}), geometry=st_obj.get("geometry", {}).get("status", {}), sensors=st_obj.get("sensors", {}).get("status", {}), mesh=st_obj.get("mesh", {}).get("status", {}), linop=st_obj.get("linop", {}).get("status", {})),
-                  traces_validated_against_impl=st_io.get("seqs", 0) + sum(st_obj.get(k, {}).get("seqs", 0) for k in ("geometry", "sensors", "mesh", "linop", "compute")), io=st_io, objects=st_obj)
+                  traces_validated_against_impl=st_io.get("seqs", 0) + sum(st_obj.get(k, {}).get("seqs", 0) for k in ("geometry", "sensors", "mesh", "linop", "compute", "multi")), io=st_io, objects=st_obj)
     sigs = [v[0] for v in ck.violations] + [k for k, _ in ck.known_hits]
     wit = {"io_history_independent_pinned_refuted: load Matrix f1.txt(absent); load Vector f7.xyz": any(x.startswith("io: failed-open-leaves-format") for x in sigs),
            "io (write side): save Vector nodir/f6.txt; save Vector f7.xyz": any(x.startswith("io: failed-open-for-writing") for x in sigs),
